@@ -349,6 +349,92 @@ def generated(rnd, tier):
         yield 2, bgpls_node_with(hostile(rnd, k)), bgpls_node_with(b'a' * k), 'bgp-ls node name / opaque'
 
 
+def update_shapes():
+    """generated UPDATE bodies (with what they are): attribute subsets, TLV multiplicity, PMSI sizes, IEEE floats, ..."""
+    from spec import wire as W
+
+    out = []
+    # every SUBSET of the common attributes (an attribute set in which only one member -- or none -- renders is where a
+    # hand-assembled member list gets a stray separator), announced, withdrawn, or both in one UPDATE
+    import itertools
+
+    parts = [
+        ('ORIGIN', W.origin(0)),
+        ('empty AS_PATH', W.as_path([], True)),
+        ('NEXT_HOP', W.next_hop('192.0.2.1')),
+        ('MED', W.unknown(4, (5).to_bytes(4, 'big'), transitive=False, optional=True)),
+        ('LOCAL_PREF', bytes([0x40, 5, 4, 0, 0, 0, 100])),
+        ('COMMUNITY', bytes([0xC0, 8, 4, 0xFD, 0xE8, 0, 1])),
+    ]
+    for r in range(0, len(parts) + 1):
+        for combo in itertools.combinations(parts, r):
+            blob = b''.join(t for _, t in combo)
+            names = ', '.join(n for n, _ in combo) or 'no attribute'
+            for wd, nl, shape in ((b'', bytes([24, 10, 0, 0]), 'announce'), (bytes([24, 10, 0, 1]), b'', 'withdraw'), (bytes([24, 10, 0, 1]), bytes([24, 10, 0, 0]), 'announce and withdraw')):
+                out.append((W.update_body(wd, blob, nl), f'UPDATE ({shape}) with exactly [{names}]'))
+    # attributes whose value is a list of TLVs rendered as MEMBERS of one object: each known TLV once, twice, next to
+    # another, and an unknown code, at both nesting levels (a peer may repeat any of them); and the attributes which
+    # come in a 2-byte / 4-byte pair under one key
+    import struct as _st
+    import socket as _so
+
+    def tlv(code, value):
+        return bytes([code]) + _st.pack('!H', len(value)) + value
+
+    base = W.origin(0) + W.as_path([], True) + W.next_hop('10.0.0.1')
+    sid = _so.inet_pton(_so.AF_INET6, '2001:db8::1')
+    structure = tlv(1, bytes([32, 16, 16, 0, 16, 48]))
+    label_index = tlv(1, b'\x00\x00\x00' + _st.pack('!I', 5))
+    srgb = tlv(3, b'\x00\x00' + (16000).to_bytes(3, 'big') + (8000).to_bytes(3, 'big'))
+
+    def sid_info(subsub):
+        return tlv(1, b'\x00' + sid + b'\x00' + _st.pack('!H', 0x13) + b'\x00' + subsub)
+
+    subsubs = {'none': b'', 'structure': structure, 'structure twice': structure * 2, 'unknown': tlv(9, b'ab'), 'unknown twice': tlv(9, b'ab') + tlv(9, b'cd'), 'structure and unknown': structure + tlv(9, b'ab')}
+    tops = {'label-index': label_index, 'srgb': srgb, 'unknown 9': tlv(9, b'ab'), 'unknown 9 again': tlv(9, b'cd')}
+    for k, v in subsubs.items():
+        tops[f'l3-service ({k})'] = tlv(5, b'\x00' + sid_info(v))
+        tops[f'l2-service ({k})'] = tlv(6, b'\x00' + sid_info(v))
+    names = list(tops)
+    for a in names:
+        out.append((W.update_body(b'', base + W.unknown(40, tops[a]), bytes([24, 10, 0, 0])), f'Prefix-SID with [{a}]'))
+        out.append((W.update_body(b'', base + W.unknown(40, tops[a] * 2), bytes([24, 10, 0, 0])), f'Prefix-SID with [{a}] twice'))
+    for a, b in itertools.combinations(names[:8], 2):
+        out.append((W.update_body(b'', base + W.unknown(40, tops[a] + tops[b]), bytes([24, 10, 0, 0])), f'Prefix-SID with [{a}] and [{b}]'))
+    # PMSI tunnel (22): every tunnel type with every tunnel identifier size an address family could give it -- what decodes
+    # must render (the identifier of ingress replication is an address: 4 or 16 octets)
+    for ttype in range(0, 9):
+        for idlen in (0, 4, 8, 12, 16, 20, 24):
+            value = bytes([0, ttype]) + (10000 << 4).to_bytes(3, 'big') + bytes(range(1, idlen + 1))
+            out.append((W.update_body(b'', base + W.unknown(22, value), bytes([24, 10, 0, 0])), f'PMSI tunnel type {ttype} with an identifier of {idlen} octets'))
+    # IEEE floats the peer chooses: NaN and the infinities must still render, and as JSON
+    for bits, fname in ((0x7FC00000, 'NaN'), (0x7F800000, '+inf'), (0xFF800000, '-inf'), (0x42C80000, '100.0')):
+        f4 = bits.to_bytes(4, 'big')
+        for sub, cname in ((0x06, 'traffic-rate'), (0x0C, 'traffic-rate-packets')):
+            out.append((W.update_body(b'', base + W.unknown(16, bytes([0x80, sub, 0, 0]) + f4), bytes([24, 10, 0, 0])), f'{cname} extended community with rate {fname}'))
+        for tlv_code, n in ((1089, 1), (1090, 1), (1091, 8)):
+            out.append((W.update_body(b'', base + W.unknown(29, _st.pack('!HH', tlv_code, 4 * n) + f4 * n, transitive=False), bytes([24, 10, 0, 0])), f'BGP-LS TLV {tlv_code} with bandwidth {fname}'))
+    for n in (1, 13, 14, 200, 1800):
+        blob = base + bytes([0x90, 29]) + _st.pack('!H', 4 + n) + _st.pack('!HH', 1027, n) + b'\xff' * n
+        out.append((W.update_body(b'', blob, bytes([24, 10, 0, 0])), f'BGP-LS IS-IS area TLV of {n} octets'))
+    # tunnel encapsulation (23): the same tunnel type twice, the same SR policy sub-TLV twice
+    pref = bytes([12, 6, 0, 0]) + (100).to_bytes(4, 'big')
+    prio = bytes([15, 2, 5, 0])
+    for inner, what in ((pref, 'preference'), (pref + pref, 'preference twice'), (pref + prio, 'preference and priority'), (prio + prio, 'priority twice')):
+        t15 = _st.pack('!HH', 15, len(inner)) + inner
+        out.append((W.update_body(b'', base + W.unknown(23, t15), bytes([24, 10, 0, 0])), f'tunnel encapsulation, SR policy with {what}'))
+        out.append((W.update_body(b'', base + W.unknown(23, t15 + t15), bytes([24, 10, 0, 0])), f'tunnel encapsulation, SR policy tunnel twice ({what})'))
+    out.append((W.update_body(b'', base + W.unknown(23, _st.pack('!HH', 99, 2) + b'ab' + _st.pack('!HH', 99, 2) + b'cd'), bytes([24, 10, 0, 0])), 'tunnel encapsulation, unknown tunnel type twice'))
+    for asn2, asn4, what in ((23456, 70000, 'AS_TRANS + 4-byte'), (65001, 70000, 'real 2-byte AS + 4-byte'), (23456, None, 'AS_TRANS alone'), (None, 70000, 'AS4_AGGREGATOR alone')):
+        blob = base
+        if asn2 is not None:
+            blob += W.unknown(7, _st.pack('!I', asn2) + bytes([1, 1, 1, 1]))
+        if asn4 is not None:
+            blob += W.unknown(18, _st.pack('!I', asn4) + bytes([1, 1, 1, 1]))
+        out.append((W.update_body(b'', blob, bytes([24, 10, 0, 0])), f'AGGREGATOR / AS4_AGGREGATOR: {what}'))
+    return out
+
+
 @bounded('C13', 'events-from-wire')
 def events_from_wire(tier, seed):
     rnd = random.Random(seed)
@@ -400,78 +486,8 @@ def events_from_wire(tier, seed):
                 new[k] = (attrs[k][0], ctlv)
                 names.append(f'{attrs[k][0]}: {cname}')
             one(2, W.update_body(wd, b''.join(t for _, t in new), nlri), None, 'generated UPDATE with malformed attributes (' + '; '.join(names) + ')')
-    # every SUBSET of the common attributes (an attribute set in which only one member -- or none -- renders is where a
-    # hand-assembled member list gets a stray separator), announced, withdrawn, or both in one UPDATE
-    import itertools
-
-    parts = [
-        ('ORIGIN', W.origin(0)),
-        ('empty AS_PATH', W.as_path([], True)),
-        ('NEXT_HOP', W.next_hop('192.0.2.1')),
-        ('MED', W.unknown(4, (5).to_bytes(4, 'big'), transitive=False, optional=True)),
-        ('LOCAL_PREF', bytes([0x40, 5, 4, 0, 0, 0, 100])),
-        ('COMMUNITY', bytes([0xC0, 8, 4, 0xFD, 0xE8, 0, 1])),
-    ]
-    for r in range(0, len(parts) + 1):
-        for combo in itertools.combinations(parts, r):
-            blob = b''.join(t for _, t in combo)
-            names = ', '.join(n for n, _ in combo) or 'no attribute'
-            for wd, nl, shape in ((b'', bytes([24, 10, 0, 0]), 'announce'), (bytes([24, 10, 0, 1]), b'', 'withdraw'), (bytes([24, 10, 0, 1]), bytes([24, 10, 0, 0]), 'announce and withdraw')):
-                one(2, W.update_body(wd, blob, nl), None, f'UPDATE ({shape}) with exactly [{names}]')
-    # attributes whose value is a list of TLVs rendered as MEMBERS of one object: each known TLV once, twice, next to
-    # another, and an unknown code, at both nesting levels (a peer may repeat any of them); and the attributes which
-    # come in a 2-byte / 4-byte pair under one key
-    import struct as _st
-    import socket as _so
-
-    def tlv(code, value):
-        return bytes([code]) + _st.pack('!H', len(value)) + value
-
-    base = W.origin(0) + W.as_path([], True) + W.next_hop('10.0.0.1')
-    sid = _so.inet_pton(_so.AF_INET6, '2001:db8::1')
-    structure = tlv(1, bytes([32, 16, 16, 0, 16, 48]))
-    label_index = tlv(1, b'\x00\x00\x00' + _st.pack('!I', 5))
-    srgb = tlv(3, b'\x00\x00' + (16000).to_bytes(3, 'big') + (8000).to_bytes(3, 'big'))
-
-    def sid_info(subsub):
-        return tlv(1, b'\x00' + sid + b'\x00' + _st.pack('!H', 0x13) + b'\x00' + subsub)
-
-    subsubs = {'none': b'', 'structure': structure, 'structure twice': structure * 2, 'unknown': tlv(9, b'ab'), 'unknown twice': tlv(9, b'ab') + tlv(9, b'cd'), 'structure and unknown': structure + tlv(9, b'ab')}
-    tops = {'label-index': label_index, 'srgb': srgb, 'unknown 9': tlv(9, b'ab'), 'unknown 9 again': tlv(9, b'cd')}
-    for k, v in subsubs.items():
-        tops[f'l3-service ({k})'] = tlv(5, b'\x00' + sid_info(v))
-        tops[f'l2-service ({k})'] = tlv(6, b'\x00' + sid_info(v))
-    names = list(tops)
-    for a in names:
-        one(2, W.update_body(b'', base + W.unknown(40, tops[a]), bytes([24, 10, 0, 0])), None, f'Prefix-SID with [{a}]')
-        one(2, W.update_body(b'', base + W.unknown(40, tops[a] * 2), bytes([24, 10, 0, 0])), None, f'Prefix-SID with [{a}] twice')
-    for a, b in itertools.combinations(names[:8], 2):
-        one(2, W.update_body(b'', base + W.unknown(40, tops[a] + tops[b]), bytes([24, 10, 0, 0])), None, f'Prefix-SID with [{a}] and [{b}]')
-    # IEEE floats the peer chooses: NaN and the infinities must still render, and as JSON
-    for bits, fname in ((0x7FC00000, 'NaN'), (0x7F800000, '+inf'), (0xFF800000, '-inf'), (0x42C80000, '100.0')):
-        f4 = bits.to_bytes(4, 'big')
-        for sub, cname in ((0x06, 'traffic-rate'), (0x0C, 'traffic-rate-packets')):
-            one(2, W.update_body(b'', base + W.unknown(16, bytes([0x80, sub, 0, 0]) + f4), bytes([24, 10, 0, 0])), None, f'{cname} extended community with rate {fname}')
-        for tlv_code, n in ((1089, 1), (1090, 1), (1091, 8)):
-            one(2, W.update_body(b'', base + W.unknown(29, _st.pack('!HH', tlv_code, 4 * n) + f4 * n, transitive=False), bytes([24, 10, 0, 0])), None, f'BGP-LS TLV {tlv_code} with bandwidth {fname}')
-    for n in (1, 13, 14, 200, 1800):
-        blob = base + bytes([0x90, 29]) + _st.pack('!H', 4 + n) + _st.pack('!HH', 1027, n) + b'\xff' * n
-        one(2, W.update_body(b'', blob, bytes([24, 10, 0, 0])), None, f'BGP-LS IS-IS area TLV of {n} octets')
-    # tunnel encapsulation (23): the same tunnel type twice, the same SR policy sub-TLV twice
-    pref = bytes([12, 6, 0, 0]) + (100).to_bytes(4, 'big')
-    prio = bytes([15, 2, 5, 0])
-    for inner, what in ((pref, 'preference'), (pref + pref, 'preference twice'), (pref + prio, 'preference and priority'), (prio + prio, 'priority twice')):
-        t15 = _st.pack('!HH', 15, len(inner)) + inner
-        one(2, W.update_body(b'', base + W.unknown(23, t15), bytes([24, 10, 0, 0])), None, f'tunnel encapsulation, SR policy with {what}')
-        one(2, W.update_body(b'', base + W.unknown(23, t15 + t15), bytes([24, 10, 0, 0])), None, f'tunnel encapsulation, SR policy tunnel twice ({what})')
-    one(2, W.update_body(b'', base + W.unknown(23, _st.pack('!HH', 99, 2) + b'ab' + _st.pack('!HH', 99, 2) + b'cd'), bytes([24, 10, 0, 0])), None, 'tunnel encapsulation, unknown tunnel type twice')
-    for asn2, asn4, what in ((23456, 70000, 'AS_TRANS + 4-byte'), (65001, 70000, 'real 2-byte AS + 4-byte'), (23456, None, 'AS_TRANS alone'), (None, 70000, 'AS4_AGGREGATOR alone')):
-        blob = base
-        if asn2 is not None:
-            blob += W.unknown(7, _st.pack('!I', asn2) + bytes([1, 1, 1, 1]))
-        if asn4 is not None:
-            blob += W.unknown(18, _st.pack('!I', asn4) + bytes([1, 1, 1, 1]))
-        one(2, W.update_body(b'', blob, bytes([24, 10, 0, 0])), None, f'AGGREGATOR / AS4_AGGREGATOR: {what}')
+    for body_, what_ in update_shapes():
+        one(2, body_, None, what_)
     return {
         'evaluations': evals,
         'distinct_nontrivial': len(distinct),
